@@ -16,6 +16,10 @@ import (
 	"github.com/fatih/color"
 )
 
+// The smallest initial size of the value stack (in slots).
+// Smaller values of ELK_INIT_VALUE_STACK_SIZE are rounded up to it.
+const MIN_INIT_VALUE_STACK_SIZE = 256
+
 var INIT_VALUE_STACK_SIZE int
 var MAX_VALUE_STACK_SIZE int
 var DefaultThreadPool = &ThreadPool{}
@@ -31,6 +35,9 @@ func init() {
 		INIT_VALUE_STACK_SIZE = val / int(value.ValueSize)
 	} else {
 		INIT_VALUE_STACK_SIZE = 24_000 / int(value.ValueSize) // 24KB by default
+	}
+	if INIT_VALUE_STACK_SIZE < MIN_INIT_VALUE_STACK_SIZE {
+		INIT_VALUE_STACK_SIZE = MIN_INIT_VALUE_STACK_SIZE
 	}
 
 	val, ok = config.IntFromEnvVar("ELK_MAX_VALUE_STACK_SIZE")
